@@ -201,7 +201,7 @@ def trace_check(ctx, module, trace_path, timeout=1800, tag=None, env=None, cfg=N
 
 
 def read_trace(path):
-    return [json.loads(l) for l in open(path) if l.strip()]
+    return [json.loads(l) for l in open(path, encoding="utf-8", errors="replace") if l.strip()]
 
 
 # ---------------------------------------------------------------- strings
